@@ -1,5 +1,5 @@
 import Cutadapt.Proofs.MatchSoundMin
-import Wip.DX5
+import Cutadapt.Proofs.DpExactFound
 /-! C02: completeness of `locate` and of the comparers in the documented vocabulary. -/
 namespace Cutadapt.MatchSound
 open Cutadapt Cutadapt.Align Cutadapt.Spec Cutadapt.Generated Cutadapt.Adapters Cutadapt.Align.Exact
